@@ -17,6 +17,7 @@ RULE = ("SerDes::serialize into a counting / fault-injecting Write and SerDes::d
         "off-curve, wrong subgroup). Oracle: lengths 32/576/48|96/96|192, bytes equal to the model encoding, round trip, "
         "consumed == length on success, Err for everything the model rejects (kind not compared), never a panic, injected "
         "I/O errors surface as Err. A case is (op, type, flag, reader mode, stream class, outcome, build)")
+RULE += (" " + 'Scalars / coefficients with every limb-wise (<,=,>) pattern against the modulus and points with boundary leading bytes are included.')
 ASSUMPTIONS = ["model wire format from the property text and README", "the kind/text of an error is not compared"]
 EXHAUSTIVE = ["every prefix length of one encoding per (type, flag)", "reader failure at every byte offset for Fr and point types", "non-reduced value at each of the 12 Fq12 coefficient positions"]
 MIN_EVALS = {"quick": 8000, "thorough": 200000}
